@@ -24,6 +24,7 @@ class Node:
     def __init__(self, name, kind, kids=None):
         self.name, self.kind, self.kids = name, kind, kids or []
         self.apath = None
+        self.link_to = None       # a Symlink whose target is a directory of the tree (its first sibling directory)
 
 
 class DirPathV(Model):
@@ -32,6 +33,17 @@ class DirPathV(Model):
 
     def __init__(self, ap):
         self.ap = ap
+
+    def clone_model(self):
+        return self
+
+
+class ChildPathV(Model):
+    """dir_path.join(name): the path of a child, by parent apath and name."""
+    ty = 'PathBuf'
+
+    def __init__(self, parent_ap, name):
+        self.parent_ap, self.name = parent_ap, name
 
     def clone_model(self):
         return self
@@ -102,9 +114,19 @@ def build_tree(ex, shape, lens):
                 node.kids.append(mk_node(s, label + '_%d' % i))
             distinct(ex, node.kids)
             return node
-        return Node(name, {'F': 'File', 'S': 'Symlink'}[spec])
+        return Node(name, {'F': 'File', 'S': 'Symlink', 'L': 'Symlink'}[spec])
+
+    def link_up(node, specs):
+        # 'L': a symlink that points at the first directory among its siblings
+        dirs = [k for k in node.kids if k.kind == 'Dir']
+        for k, sp in zip(node.kids, specs):
+            if sp == 'L' and dirs:
+                k.link_to = dirs[0]
+            if isinstance(sp, tuple):
+                link_up(k, sp[1])
     root = Node(None, 'Dir', [mk_node(s, 'n%d' % i) for i, s in enumerate(shape)])
     distinct(ex, root.kids)
+    link_up(root, shape)
     return root
 
 
@@ -139,17 +161,35 @@ def install_walk(ex, root, expected):
     def add(p, f):
         I.insert(0, (re.compile('(?:' + p + r')$'), f))
 
+    # what the file system shows THROUGH a symlink to a directory: the target's descendants under the link's path
+    aliases = []
+
+    def alias_rec(prefix, target):
+        for k in target.kids:
+            ap = str_concat(str_concat(prefix, SymStr.lit('/')), k.name)
+            aliases.append((ap, k))
+            if k.kind == 'Dir':
+                alias_rec(ap, k)
+    for e, n in expected:
+        if n.link_to is not None:
+            alias_rec(e, n.link_to)
+
     def node_of(ap):
         s = deref(ap)
         s = s.fields[0] if isinstance(s, Agg) else s
-        for e, n in expected:
+        for e, n in expected + aliases:
             if same_chars(e, s):
                 return n
         raise Unsupported('walk: path %r is not a node of the model' % (s,))
+
+    def follow(n):
+        return n.link_to if (n.kind == 'Symlink' and n.link_to is not None) else n
     add(r'(?:apath::)?Apath::below::<.*>', lambda ex, c, a: DirPathV(deref(a[0])))
 
     def symlink_metadata(ex, c, a):
         p = deref(a[0])
+        if isinstance(p, ChildPathV):
+            return ok(MetaV(resolve_path(p)))
         if not isinstance(p, DirPathV):
             return NotImplemented
         return ok(MetaV(node_of(p.ap)))
@@ -159,7 +199,7 @@ def install_walk(ex, root, expected):
         p = deref(a[0])
         if not isinstance(p, DirPathV):
             return NotImplemented
-        n = node_of(p.ap)
+        n = follow(node_of(p.ap))       # opendir follows a symlink
         if n.kind != 'Dir':
             return err(Opaque('io::Error'))
         return ok(ReadDirV(n.kids))
@@ -181,9 +221,55 @@ def install_walk(ex, root, expected):
     add(r'(?:std::fs::)?DirEntry::path', lambda ex, c, a: Opaque('PathBuf'))
     add(r'(?:std::fs::)?FileType::is_dir|(?:std::fs::)?Metadata::is_dir', lambda ex, c, a: deref(a[0]).node.kind == 'Dir')
     add(r'(?:cachedir::)?is_tagged::<.*>', lambda ex, c, a: ok(False))
-    add(r'(?:std::path::)?(?:Path|PathBuf)::join::<.*>', lambda ex, c, a: Opaque('PathBuf') if isinstance(deref(a[0]), DirPathV) else NotImplemented)
-    add(r'<(?:std::path::)?PathBuf as Deref>::deref', lambda ex, c, a: a[0] if isinstance(deref(a[0]), (DirPathV, Opaque)) else NotImplemented)
-    add(r'(?:std::path::)?Path::to_path_buf', lambda ex, c, a: Opaque('PathBuf') if isinstance(deref(a[0]), (Opaque, DirPathV)) else NotImplemented)
+    def path_join(ex, c, a):
+        p = deref(a[0])
+        if not isinstance(p, DirPathV):
+            return NotImplemented
+        nm = deref(a[1])
+        if isinstance(nm, (str, SymStr)):
+            return ChildPathV(p.ap, nm)
+        return Opaque('PathBuf')
+    add(r'(?:std::path::)?(?:Path|PathBuf)::join::<.*>', path_join)
+    add(r'<(?:std::path::)?PathBuf as Deref>::deref', lambda ex, c, a: a[0] if isinstance(deref(a[0]), (DirPathV, Opaque, ChildPathV)) else NotImplemented)
+    add(r'(?:std::path::)?Path::to_path_buf', lambda ex, c, a: Opaque('PathBuf') if isinstance(deref(a[0]), (Opaque, DirPathV)) else
+        deref(a[0]) if isinstance(deref(a[0]), ChildPathV) else NotImplemented)
+
+    def resolve_path(p):
+        if isinstance(p, DirPathV):
+            return node_of(p.ap)
+        if isinstance(p, ChildPathV):
+            parent = follow(node_of(p.parent_ap))
+            for k in parent.kids:
+                if same_chars(k.name, p.name):
+                    return k
+            raise Unsupported('walk: child path names no node of the model')
+        return None
+
+    def path_kind(which):
+        # Path::is_dir / is_file / exists follow symlinks (stat); Path::is_symlink does not (lstat)
+        def f(ex, c, a):
+            n = resolve_path(deref(a[0]))
+            if n is None:
+                return NotImplemented
+            if which == 'is_symlink':
+                return n.kind == 'Symlink'
+            t = follow(n)
+            if t.kind == 'Symlink':
+                return False                   # a link whose target is not in the tree: dangling
+            return {'is_dir': t.kind == 'Dir', 'is_file': t.kind == 'File', 'exists': True}[which]
+        return f
+    for which in ('is_dir', 'is_file', 'exists', 'is_symlink'):
+        add(r'(?:std::path::)?(?:Path|PathBuf)::' + which, path_kind(which))
+
+    def fs_metadata(ex, c, a):
+        n = resolve_path(deref(a[0]))
+        if n is None:
+            return NotImplemented
+        t = follow(n)
+        if t.kind == 'Symlink':
+            return err(Opaque('io::Error'))
+        return ok(MetaV(t))
+    add(r'(?:std::fs::)?metadata::<.*>', fs_metadata)
 
     def entry_from_md(ex, c, a):
         ap, md = a[0], deref(a[2])
@@ -210,7 +296,7 @@ def make_walk(prog, shape, lens):
                 raise Unsupported('Iter::new failed')
             it = r.fields[0]
             got = []
-            for _ in range(len(expected) + 3):
+            for _ in range(2 * len(expected) + 3):
                 o = ex.call_fn(nxt, [Ref([it], 0)])
                 if o.variant == 0:
                     break
@@ -248,7 +334,7 @@ def make_walk(prog, shape, lens):
             if problems:
                 m = model or ex.E.check()[1]
                 names = [AP.txt(AP.show(m, g)) for g in got] if m is not None else []
-                tree = [AP.txt(AP.show(m, e)) + ('/' if n.kind == 'Dir' and AP.show(m, e) != [SL] else '@' if n.kind == 'Symlink' else '')
+                tree = [AP.txt(AP.show(m, e)) + ('/' if n.kind == 'Dir' and AP.show(m, e) != [SL] else ('@' + (AP.txt(AP.show(m, n.link_to.name)) if n.link_to is not None else '')) if n.kind == 'Symlink' else '')
                         for e, n in expected] if m is not None else []
                 res['bad'].append({'kind': 'walk-order', 'problems': problems, 'emitted': names, 'tree': tree, 'shape': repr(shape)})
             elif len(res['samples']) < 1:
